@@ -19,7 +19,9 @@ MANIFEST = {
             "estimate (safe_divide -> norm -> safe_divide) equals one renormalisation; single coil, all-zero ACS image, unit map and "
             "arbitrary refinement-network output are covered; finiteness is the theorem that no result depends on the value of a "
             "division by zero (division is a parameter of the model) plus closure of an abstract 'finite' predicate. Phase 3: the "
-            "whole module is modelled — ACS k-space = k-space x mask x Gaussian window with the linspace(-1,1,W) coordinates "
+            "whole module is modelled — ACS k-space = apply_mask(k-space, acs_mask) = where(mask == 0, 0, k) (maskPixels: exact "
+            "zeros off the mask whatever the data, the data itself on it, finite whatever the mask values) x Gaussian window with "
+            "the linspace(-1,1,W) coordinates "
             "(W = 1 gives [-1], no division), guard for sigma None/0, arbitrary backward operator; all three map types (UNIT, "
             "RSS_ESTIMATE, ESPIRIT with an arbitrary calibrator) flow into the one guarded division (forward_normalised, "
             "forward_finite, forward_indep_div_zero); per-pixel positive weights and global scale cancel exactly "
@@ -66,7 +68,7 @@ TRUSTED = [
 ]
 ASSUMPTIONS = [
     "correspondence inputs are integer-valued with a perfect-square squared sum over coils at every pixel (sqrt exact); 0/1 ACS masks; "
-    "sigma in {None, 0, 1/2, 1, 2, -1/2}; widths 1..10 for the window coordinates",
+    "sigma in {None, 0, 1/2, 1, 2, -1/2}; widths 1..10 for the window coordinates; mask values 0/1 and 0/2/3 (where, not product)",
     "oracle: unit-or-zero within 1e-5, finiteness, for float32 magnitudes 2^-60 <= |x| <= 2^60 per pixel (largest magnitude over coils; "
     "boundary included, up to 64 coils); outside only finiteness is judged (stated partial)",
     "the real ESPIRiT path is exercised only where it is defined: 2-D, calibration matrix with rows >= columns, at least one non-zero coil",
